@@ -29,7 +29,7 @@ CHECKS = {
             'DESIGN.md section 2 C13'),
     'C01': ('exploration', 'differential round trip Writer->Reader against a format-projection model + independent PBF framing parser (ASan/UBSan build)',
             'Seeded data sets with boundary-heavy values are written with the real Writer under random option vectors (format, dense, blob compression, '
-            '32 metadata subsets, locations_on_ways, file compression, reader pool, file/memory input, buffer/item feeding), read back with the real Reader '
+            '32 metadata subsets, locations_on_ways, file compression, reader pool, file/memory input; fed as buffers, as items or as a seeded sequence of item runs, whole buffers and flush() calls; one case per format encodes 40 blocks concurrently), read back with the real Reader '
             'and compared field by field with project(D, options); boundary packs exercise 7999/8000/8001 entities per block and a > 32 MiB string table; '
             'every uncompressed PBF file is re-parsed by an independent framing parser that enforces the 64 KiB / 32 MiB limits. Held on the sampled '
             '(D, option) pairs only.',
@@ -41,7 +41,7 @@ CHECKS = {
             '+-85.05, +-MERCATOR_MAX_LAT, +-89.99, +-90 in quick) and a dense longitude grid incl. exactly +-180: round trip to the same fixed-point value, '
             'fast formula within 1 cm and 1/4 local step of the tangent formula, strict monotonicity, and for zoom 0..30 tile range, never decreasing east/south, '
             'parent/child containment, through both Tile constructors.',
-            'Trusted: long double reference formulas in the harness. Round trip/monotonicity/accuracy vs the canonical formula are judged inside the documented domain '
+            'Trusted: long double reference formulas in the harness. Round trip and strict monotonicity are judged for every latitude in [-90,90]; agreement with the canonical formula inside the documented domain '
             '|lat| <= MERCATOR_MAX_LAT; tile clauses for every valid location incl. poles.',
             'DESIGN.md section 2 C18'),
     'C09': ('fault_enumeration', 'reference-decompressor oracle (Python gzip/bz2 at generation time) over an enumerated corpus of multi-stream, truncated and corrupted files (ASan/UBSan builds, three input buffer sizes)',
@@ -103,7 +103,7 @@ CHECKS = {
             'nine node orders, positive and negative ids.',
             'Trusted: the std::map model. Not judged: clear(), size(), used_memory().',
             'DESIGN.md section 2 C12'),
-    'C14': ('exploration', 'exhaustive enumeration with the real parsers as left inverse (opl_parse_string, expat), structural-character scan, exact-size heap blocks / guard pages for over-reads (ASan/UBSan + -O2 builds)',
+    'C14': ('exploration', 'exhaustive enumeration with the real parsers as left inverse (opl_parse_string, expat; writer blocks also through the library's XML reader), structural-character scan, exact-size heap blocks / guard pages for over-reads (ASan/UBSan + -O2 builds)',
             'Every Unicode scalar value (alone and in context), every sequence up to length 4 over a structural alphabet, random long strings and writer-level blocks are '
             'escaped by the OPL/XML writers and parsed back; escaped forms are scanned for raw structural characters and checked pairwise distinct; every byte string of '
             'length 0..4 (strided in quick) is escaped from an exact-size block: no read past the NUL and an exception exactly when a well-formed prefix ends in a cut-off sequence.',
@@ -131,18 +131,19 @@ CHECKS = {
     'C05': ('exploration', 'exactly-once/order oracle over unique (type,id,version) triples under seeded configurations and schedule perturbation at queue/pool hook points (TSan and ASan builds with small parser buffers, hook H4)',
             'Seeded multi-block files in PBF (dense/plain), XML, OPL and o5m are read with pool sizes 1..32, work/input/osmdata queue sizes, PBF decoding in pool threads on/off, buffers_type, '
             'all 16 entity masks, read_meta, file or memory input and fast/slow consumers, each under seeded yields/sleeps at the hook points: the delivered sequence must equal the generated '
-            'data set filtered by the mask; eof() and failure of reads after the end are asserted.',
+            'data set filtered by the mask; eof() and failure of reads after the end are asserted. Every 6th case runs two Readers alive at the same time (each must deliver exactly its own file); '
+            'close(2) is interposed (--wrap=close): a close of a descriptor that is not open is a violation.',
             'Held on the interleavings actually produced (distinct signatures are counted in the evidence). read_meta::no: metadata fields may be real or default.',
             'DESIGN.md section 2 C05'),
-    'C07': ('fault_enumeration', 'enumerated stop points and injected faults (mock Decompressor registered via CompressionFactory, corrupted blocks, truncation) with process monitors: watchdog, read(2) log via --wrap=read, /proc task and fd baselines (ASan and TSan builds)',
+    'C07': ('fault_enumeration', 'enumerated stop points and injected faults (mock Decompressor registered via CompressionFactory, corrupted blocks, truncation) with process monitors: watchdog, read(2)/close(2) logs via --wrap=read/--wrap=close, /proc task and fd baselines (ASan and TSan builds)',
             'For every format: the consumer abandons the Reader after k reads (with/without header(), via close() or destructor); the j-th decompressor read or the close throws; the n-th PBF block '
             'is corrupt (zlib data / protobuf), text formats are corrupt in the middle, headers corrupt, input truncated; x pool and queue sizes x seeded perturbation. Every API call must return '
             '(bounded progress), the first error must be reported exactly by header()/read()/close(), afterwards read() throws and delivers nothing, delivered objects are a prefix located before '
-            'the fault, no Decompressor::read()/read(2) on the Reader\'s fd after close() returned, thread and fd sets back to the baseline.',
+            'the fault, no Decompressor::read()/read(2) on the Reader\'s fd after close() returned, no close(2) of a descriptor that is not open, thread and fd sets back to the baseline.',
             'Liveness decided as bounded progress (120 s watchdog + driver stall oracle). TSan reports through the exception_ptr reference count of the uninstrumented libstdc++ are suppressed (lib/tsan.supp).',
             'DESIGN.md section 2 C07'),
     'C08': ('fault_enumeration', 'OS-level fault injection (RLIMIT_FSIZE/EFBIG at byte offsets in a forked child; strace -e inject on the n-th write, fsync, close) and throwing mock Compressor / unencodable input, with file re-decoding as oracle (ASan and TSan builds)',
-            'For 16 configurations (xml/pbf/opl x none/gzip/bzip2 x fsync) the Writer scenario (several buffers, optional flush, close) runs with the kernel refusing the first write that '
+            'For 16 configurations (xml/pbf/opl x none/gzip/bzip2 x fsync) the Writer scenario (single items, flush, several buffers, optional flush, close) runs with the kernel refusing the first write that '
             'reaches offset o (first/last offsets densely, seeded ones between, control runs at the full size), with strace failing the n-th write (ENOSPC/EIO), fsync or close of the output file, '
             'with a Compressor that throws in its constructor, k-th write or close, and with an OPL string that cannot be encoded (failure in a pool worker). A fault that demonstrably fired must '
             'surface as an exception from operator(), flush() or close(); afterwards operator() throws io_error; destructor returns, threads back at baseline; a normal close() means size == stat size '
